@@ -915,6 +915,9 @@ def sig_codec_scenarios(prog, chk, pid, tier):
 
 
 def run(prog, chk, tier):
+    from rules import state as _state
+
+    _state.shared_state_rules(prog, chk, "C18", _state.ECDSA_MODULES)
     chk.explanation = ("Only the structural part of the statement is decided: the range guards on r and s (normal forms Lt(x, 1), Lt(n-1, x), returning False) dominate the modular "
                        "inversion; the verification verdict is the ECDSA equation as a data-flow fact; signing never returns r = 0 or s = 0 and the deterministic variant "
                        "retries only on that condition with an incremented counter; the three signature decoders enforce exact lengths / no trailing data, can only raise their "
@@ -938,6 +941,8 @@ def run(prog, chk, tier):
 
     c17.sibling_rules(prog, chk, "C18")
     c17.mul_add_rules(prog, chk, "C18")
+    # verification of a key whose point carries a table goes through the table walk (mul_add falls back to self * a + other * b when both points have one)
+    c17.mul_rules(prog, chk, "C18")
     c17.two_torsion_rules(prog, chk, "C18")
     # the DER signature decoder's primitives accept exactly their identifier octets (a flipped class bit in 30 / 02 must not go unnoticed)
     from rules import c19
